@@ -89,7 +89,7 @@ func init() {
 		if !within(concWatchdog, func() {
 			obs = w.evalObs(context.Background(), "(let [a (atom 1)] (swap! a (fn [x] (+ x @a))))")
 		}) {
-			return "HANG\t!swap! whose update function derefs the atom being swapped never returns"
+			return "BLOCKED\t!swap! whose update function derefs the atom being swapped never returns"
 		}
 		if obs != "ok I2" {
 			return obs + "\t!swap! with a self-dereferencing update function: expected 2"
@@ -107,7 +107,7 @@ func init() {
 			obs = w.evalObs(context.Background(),
 				`(let [a (atom 1)] (do (try (swap! a (fn [x] (throw "boom"))) (catch e nil)) [(deref a) (swap! a (fn [x] (+ x 1))) (reset! a 9) @a]))`)
 		}) {
-			return "HANG\t!atom unusable after a failing update function"
+			return "BLOCKED\t!atom unusable after a failing update function"
 		}
 		if obs != "ok ( V I1 I2 I9 I9 )" {
 			return obs + "\t!failing update function: atom changed or unusable"
